@@ -205,6 +205,8 @@ class SeqFaultHarness:
         base_sig = {"harness": "seqfault", "ct": self.ct, "method": self.method, "warm": self.warm, "consume": self.consume}
         if self.early or self.body != "bytes":
             base_sig.update(early=self.early, body=self.body)
+        if self.retries:
+            base_sig["retries"] = self.retries
         inj_desc = None
         if inj:
             opi, fname = inj[0]
@@ -214,6 +216,11 @@ class SeqFaultHarness:
             base_sig["fault"] = fname
             base_sig["fault_op"] = op.kind
             base_sig["fault_stage"] = self._stage(w, op)
+            if len(inj) > 1:
+                op2 = w.net.ledger[inj[-1][0]]
+                inj_desc += f"+{inj[-1][1]}@{op2.kind}"
+                base_sig["fault2"] = inj[-1][1]
+                base_sig["fault2_op"] = op2.kind
 
         def viol(prop, kind, msg, **extra):
             ex.violations.append(Violation(f"{prop}.{kind}", f"{msg} | ct={self.ct} variant={self.variant} fault={inj_desc} victim={self._vdesc(vic)}",
@@ -237,10 +244,13 @@ class SeqFaultHarness:
             if not documented_exception(e):
                 viol("C15", "undocumented-exception", f"{exc_class(e)}: {e}", leaked=exc_class(e))
             elif inj:
-                want = FAULT_TO_EXC[inj[0][1]]
+                # with a fault budget of two (retry histories) the earlier fault was absorbed - by a connection retry or by
+                # h11's suppressed write error - and the LAST one is the cause of what the caller sees
+                last = inj[-1][1]
+                want = FAULT_TO_EXC[last]
                 # a write failure may legitimately surface as the read-side consequence (h11 suppresses WriteError and reads on)
-                if not isinstance(e, want) and not (inj[0][1] == "WriteError" and isinstance(e, (httpcore.RemoteProtocolError, httpcore.ReadError))):
-                    viol("C15", "wrong-class", f"injected {inj[0][1]} surfaced as {exc_class(e)}: {e}", got=exc_class(e))
+                if not isinstance(e, want) and not (last == "WriteError" and isinstance(e, (httpcore.RemoteProtocolError, httpcore.ReadError))):
+                    viol("C15", "wrong-class", f"injected {last} surfaced as {exc_class(e)}: {e}", got=exc_class(e))
             else:
                 viol("C15", "spurious-error", f"no fault injected but the call raised {exc_class(e)}: {e}")
         elif inj and vic[0].startswith("ok"):
